@@ -117,6 +117,29 @@ def one_case(r, cls, kinds):
         fs.enablefilter("f")
         if readback(fs, "f") != want2:
             probs.append("read-back after re-enabling the updated filter differs: supplied %r, read %r" % (want2, readback(fs, "f")))
+        # the same through renames, disabled and enabled, with a neighbour in the set and a move in between
+        fs.addfilter("other", [("Subject", ":is", "o")], [("keep",)])
+        fs.disablefilter("f")
+        fs.updatefilter("f", "g", conds, acts, mt)
+        if readback(fs, "g") != want:
+            probs.append("read-back after updatefilter RENAMING a disabled filter differs: supplied %r, read %r" % (want, readback(fs, "g")))
+        fs.movefilter("g", "down")
+        if readback(fs, "g") != want:
+            probs.append("read-back after moving the renamed disabled filter differs: supplied %r, read %r" % (want, readback(fs, "g")))
+        fs.enablefilter("g")
+        if readback(fs, "g") != want:
+            probs.append("read-back after enabling the renamed filter differs: supplied %r, read %r" % (want, readback(fs, "g")))
+        fs.updatefilter("g", "h", conds2, acts2, mt)
+        if readback(fs, "h") != want2:
+            probs.append("read-back after updatefilter renaming an enabled filter differs: supplied %r, read %r" % (want2, readback(fs, "h")))
+        tmp = FiltersSet("tmp")
+        tmp.addfilter("x", conds, acts, mt)
+        fs.disablefilter("h")
+        fs.replacefilter("h", tmp.getfilter("x"), "k")
+        if readback(fs, "k") != want:
+            probs.append("read-back after replacefilter renaming a disabled filter differs: supplied %r, read %r" % (want, readback(fs, "k")))
+        if readback(fs, "other") != (normalise([("Subject", ":is", "o")]), normalise([("keep",)]), "anyof"):
+            probs.append("the neighbour filter reads back as %r" % (readback(fs, "other"),))
     except Exception as e:  # noqa
         probs.append("raised %s: %s" % (type(e).__name__, str(e)[:80]))
     return conds, acts, mt, probs
